@@ -249,9 +249,29 @@ def known_class(line, impl):
             if v == "n:%s" % t[5] and pos == t[5] and t[4] != t[5]:
                 return "D7"
         return None
-    if t[0] == "sanasync" and "seek(pc)" in t[1] and impl.endswith("d7=1"):
+    if t[0] == "sanasync" and "seek(pc)" in t[1] and impl.endswith("d7=1") and has_until_eof_box(t[2]):
+        # the call site of the finding: the length query of an until-EOF box (skip_box / read_data); a run without such a box
+        # whose result depends on the schedule is a different violation, whatever the probe flag says
         return "D7"
     return None
+
+
+def has_until_eof_box(hexdata):
+    """does the top-level box sequence contain a box whose 32-bit size field is 0 (extends to the end of the input)?"""
+    d = bytes.fromhex(hexdata) if hexdata != "-" else b""
+    off = 0
+    while off + 8 <= len(d):
+        size = int.from_bytes(d[off:off + 4], "big")
+        if size == 0:
+            return True
+        if size == 1:
+            if off + 16 > len(d):
+                return False
+            size = int.from_bytes(d[off + 8:off + 16], "big")
+        if size < 8:
+            return False
+        off += size
+    return False
 
 
 def search(run, disagreements):
